@@ -82,9 +82,12 @@ def run(R, ctx):
     run_glob(R, ctx)
     rule = R.rule
     rng = random.Random(R.seed * 7919 + 17)
+    # "exactly the LIVE keys": one small real-clock batch whose only probe is KEYS over keys that are past their deadline and still stored
+    from .. import ttlgen
+    live = ttlgen.batch(rng, 40, only=["keys"], plain=True, attach_ms=520)
     execsuite.run_exec_suite(R, ctx, "keys-command", [], (0, 0), "exec_c17",
-                             "the KEYS command end to end on keyspaces whose names contain glob metacharacters",
-                             extra_lines=keys_command_lines(rng, R.tier))
+                             "the KEYS command end to end on keyspaces whose names contain glob metacharacters; KEYS over keys whose deadline has just passed (real clock)",
+                             extra_lines=keys_command_lines(rng, R.tier) + live)
     R.rule = rule + " || KEYS command: " + R.rule
 
 
